@@ -521,6 +521,39 @@ func c14Changed(u fw.Unit) fw.Result {
 					}
 				}
 			}
+			// had_changed(<ignoreNull>, *): the whole row against the partition's previous row (rows without the id
+			// column; k and w are never NULL, so the first row of a partition is a change)
+			var starRows []Row
+			for _, r := range rows {
+				starRows = append(starRows, Row{"k": r["k"], "w": r["w"], "v": r["v"]})
+			}
+			for _, ign := range []bool{false, true} {
+				for _, q := range []string{
+					fmt.Sprintf("SELECT k, had_changed(%v, *) OVER (PARTITION BY k) AS hc FROM stream", ign),
+					fmt.Sprintf("SELECT k, had_changed(%v, *) OVER (PARTITION BY k) AS hc, acc_count(w) OVER (PARTITION BY k) AS n FROM stream", ign),
+				} {
+					resS, eS, stS, _ := syncEval(q, starRows)
+					if eS != "" || stS != sched.StatusOK {
+						a.fail("C14|changed|exec", eS+" "+stS.String(), map[string]any{"sql": q}, nil, nil)
+						continue
+					}
+					hv, hw := map[string]*st{}, map[string]*st{}
+					for i, row := range starRows {
+						k := row["k"].(string)
+						if hv[k] == nil {
+							hv[k], hw[k] = &st{}, &st{}
+						}
+						_, c1 := step(hv[k], ign, row["v"])
+						_, c2 := step(hw[k], ign, row["w"])
+						g := resS[i].Row
+						b, okb := truthy(g["hc"])
+						if g == nil || !okb || b != (c1 || c2) {
+							a.fail("C14|changed|had_changed-star", fmt.Sprintf("%s: row %d gives %s, reference hc=%v; rows %s", q, i+1, js(g), c1 || c2, js(starRows)), map[string]any{"sql": q, "rows": starRows}, c1 || c2, g)
+							break
+						}
+					}
+				}
+			}
 			res, execErr, status, _ := syncEval(q2, rows)
 			a.r.Evaluations++
 			a.r.States++
